@@ -265,6 +265,18 @@ def emit_sites(ctx, P, A, rule, scope, classes=("A", "B"), justify=None, where_p
             # per entry (a further unproved site of that kind in the function is still reported)
             pre = "%s|%s|%s|" % (rule, s.fn.short, s.kind)
             cands = sorted(j for j in justify if j.startswith(pre) and j not in used_just and j not in loose_used)
+            if not cands:
+                # a closure body moved into its parent function (iterator chain -> loop) or back: the entry of a closure
+                # matches a site of the same kind whose expression differs only in the name of the receiver variable
+                def tail(sn):
+                    return sn.split(" ", 1)[1] if " " in sn else sn
+                mine = tail(key.split("|", 2)[2]) if key.count("|") >= 2 else None
+                for j in sorted(justify):
+                    parts = j.split("|", 3)
+                    if len(parts) == 4 and parts[0] == rule and parts[2] == s.kind and j not in used_just and j not in loose_used and \
+                            (parts[1].startswith("{closure#") or s.fn.short.startswith("{closure#")) and mine and tail(parts[3]) == mine and " " in parts[3]:
+                        cands = [j]
+                        break
             if cands:
                 loose_used.add(cands[0])
                 ok = True
